@@ -36,6 +36,7 @@ DEFAULT_PROFILE = {
     "p_extra_layers": 0.5,
     "p_shared_stack": 0.6,
     "entry_w": {"tree": 9, "hms": 1, "minimize": 0},
+    "p_manual_steps": 0.12,  # entry "tree" replaced by a manual `while not gsc(tree): tree.run_step()` loop
     "metaepochs": [2, 12],
     "level_limit": [1, 4],
     "p_no_level_limit": 0.1,
@@ -370,6 +371,10 @@ def gen_plan(seed, prof=None, prop="GEN"):
         faults["lsc_inject"] = [[rng.randint(0, 8), rng.randint(1, 6)] for _ in range(rng.randint(1, 4))]
     plan["faults"] = faults
     plan["caps"] = {"metaepochs": 40, "evals": 40000, "consults": 4000}
+    # drawn last, from an independent stream, so that the plans of earlier versions keep their shape
+    r2 = random.Random(seed ^ 0x57E95)
+    if plan["entry"] == "tree" and r2.random() < prof.get("p_manual_steps", 0.0):
+        plan["entry"] = "steps"
     return plan
 
 
